@@ -241,6 +241,7 @@ func runC07(c *core.Ctx, o Options) {
 	// G2 premise: an accepting session never rests in WaitingLogonAnswer (where the next Logon is accepted unchecked as the
 	// answer to its own), and the Logon is parsed into a builder of its own (fields absent from this Logon are absent, not
 	// left over from another session's)
+	s.checkApprovalIsTheCallbacks("G2")
 	s.checkLogonParams("G2") // the approval test itself: a Logon that must be refused must not start the timers
 	s.checkRestingSide("G2")
 	if lf := s.one(true, "Logon"); lf != nil {
@@ -305,9 +306,13 @@ func runC07(c *core.Ctx, o Options) {
 		needleCensus(c, "G5", []*ssa.Function{vbt})
 	}
 	checkCodecs(c, "G5", map[string]bool{"frombytes": true})
+	// a Logon whose repeating groups contradict their count fields (every header carries NoHops, the Logon NoMsgTypes) is
+	// non-conforming too: the decoder's group rules of C02 hold
+	decoderRules(c)
 	c.RulePrefix = ""
-	c.Explanation += " G5 premises: the integrity rules of C03, the anchored first-occurrence needles of ValueByTag and the exact value parsers of the codec table."
-	c.RuleMin = map[string]int{"G1": 14, "G2": 8, "G3": 2, "census": 12, "G4": 5, "G5": 20}
+	c.Explanation += " G5 premises: the integrity rules of C03, the anchored first-occurrence needles of ValueByTag the exact value parsers of the codec table, and the decoder rules R3–R8 of C02 (an entry count that disagrees with the entries is an error)."
+	c.Explanation += " G2 also: Session.LogonHandler is only assigned a parameter (the application's callback itself), and a function that recovers from a panic sets its error result."
+	c.RuleMin = map[string]int{"G1": 14, "G2": 8, "G3": 2, "census": 12, "G4": 5, "G5": 30}
 	c.MinObl = 20
 }
 
